@@ -615,9 +615,89 @@ class State:
             collect_syms(v, out)
         return out
 
+    def gc_heap(self):
+        """drop heap cells that no live reference can reach"""
+        reach = set()
+        work = []
+
+        def refs(v):
+            if isinstance(v, RefV):
+                if v.place is not None:
+                    work.append(v.place.key)
+            elif isinstance(v, PtrV):
+                if isinstance(v.place, Place):
+                    work.append(v.place.key)
+            elif isinstance(v, StructV):
+                for f in v.fields:
+                    refs(f)
+            elif isinstance(v, EnumV):
+                for p in v.variants.values():
+                    if p is not None:
+                        refs(p)
+            elif isinstance(v, SliceV):
+                b = v.base
+                if isinstance(b, tuple) and len(b) > 1 and isinstance(b[1], Place):
+                    work.append(b[1].key)
+            elif isinstance(v, OpaqueV):
+                for _, a in v.attrs:
+                    if isinstance(a, Value):
+                        refs(a)
+                    elif isinstance(a, Place):
+                        work.append(a.key)
+                    elif isinstance(a, tuple):
+                        for x in a:
+                            if isinstance(x, Value):
+                                refs(x)
+                            elif isinstance(x, Place):
+                                work.append(x.key)
+        for k, v in self.cells.items():
+            if not (isinstance(k, tuple) and k and k[0] == "h"):
+                refs(v)
+        while work:
+            k = work.pop()
+            if k in reach:
+                continue
+            reach.add(k)
+            v = self.cells.get(k)
+            if v is not None:
+                refs(v)
+        for k in [k for k in self.cells if isinstance(k, tuple) and k and k[0] == "h" and k not in reach]:
+            del self.cells[k]
+
     def gc(self, keep=()):
+        self.gc_heap()
         live = self.used_syms()
         live.update(keep)
+        dead = set()
+        for f in self.facts:
+            for s, _ in f.t:
+                if s not in live:
+                    dead.add(s)
+        # eliminate dead symbols by combining the facts that mention them
+        # (Fourier-Motzkin, bounded), so that relations passing through a
+        # dead symbol survive
+        for d in sorted(dead):
+            pos, neg, rest = [], [], []
+            for f in self.facts:
+                k = f.coeff(d)
+                if k > 0:
+                    pos.append((f, k))
+                elif k < 0:
+                    neg.append((f, -k))
+                else:
+                    rest.append(f)
+            lo, hi = self.bounds.get(d, (-INF, INF))
+            if lo > -INF:
+                pos.append((Aff.sym(d) - lo, 1))
+            if hi < INF:
+                neg.append((Aff.const(hi) - Aff.sym(d), 1))
+            if len(pos) * len(neg) <= 24:
+                for fp, kp in pos:
+                    for fn, kn in neg:
+                        c = fp.scale(kn) + fn.scale(kp)
+                        if c.t and self.lower(c) < 0 and c not in rest and len(c.t) <= 4:
+                            rest.append(c)
+            self.facts = rest
         self.facts = [f for f in self.facts if all(s in live for s, _ in f.t)]
         self._fx = None
         for s in list(self.bounds):
